@@ -55,5 +55,51 @@ func TestVerifBounded(t *testing.T) {
 			}
 		}
 	}
-	fmt.Printf("BOUNDED {\"cases\": %d, \"bound\": \"panic call after 0..%d blank lines, indented by 0..%d extra spaces, message literal/parameter/concatenation/call result, on the same or the next line\"}\n", cases, maxBlank, maxIndent)
+	// several panic calls in one function, on one line and on consecutive lines, in one or two functions:
+	// the position reported is that of the call that fires
+	for fired := 0; fired < 3; fired++ {
+		for _, sameLine := range []bool{true, false} {
+			for _, twoFuncs := range []bool{false, true} {
+				cases++
+				var sb strings.Builder
+				sep := "; "
+				if !sameLine {
+					sep = "\n\t"
+				}
+				parts := []string{"if n == 0 { panic(\"zero\") }", "if n == 1 { panic(\"one\") }", "panic(\"other\")"}
+				body := "\t" + strings.Join(parts, sep) + "\n"
+				sb.WriteString("func fail(n: int) {\n" + body + "}\n")
+				if twoFuncs {
+					sb.WriteString("func fail2(n: int) {\n" + body + "}\n")
+				}
+				callee := "fail"
+				failLine := 2
+				if twoFuncs {
+					callee = "fail2"
+					failLine = 2 + 3 // behind the three lines of fail
+					if !sameLine {
+						failLine = 2 + 5
+					}
+				}
+				sb.WriteString(fmt.Sprintf("func main() {\n\t%s(%d)\n}\n", callee, fired))
+				line, col := failLine, 0
+				if sameLine {
+					col = 1 // the tab
+					for i := 0; i < fired; i++ {
+						col += len(parts[i]) + len(sep)
+					}
+				} else {
+					line += fired
+					col = 1
+				}
+				col += strings.Index(parts[fired], "panic(") + len("panic") + 1
+				want := fmt.Sprintf("panic: %s (hello.wa:%d:%d)\n", []string{"zero", "one", "other"}[fired], line, col)
+				out, _ := RunCode(DefaultConfig(), "hello.wa", sb.String(), token.K_pkg_main+"."+token.K_main)
+				if string(out) != want {
+					t.Fatalf("COUNTEREXAMPLE program %q (call %d of 3 fires): output %q, want %q", sb.String(), fired, out, want)
+				}
+			}
+		}
+	}
+	fmt.Printf("BOUNDED {\"cases\": %d, \"bound\": \"panic call after 0..%d blank lines, indented by 0..%d extra spaces, message literal/parameter/concatenation/call result, on the same or the next line; three panic calls in one function on one line or on consecutive lines, in the first or second function of the file, each of them firing in turn\"}\n", cases, maxBlank, maxIndent)
 }
